@@ -333,11 +333,12 @@ def run_cli(ctx):
         k += 1
     results = []
     with cf.ThreadPoolExecutor(max_workers=4) as ex:
-        for f in [ex.submit(fn, ctx, *args) for fn, args in jobs]:
+        for f in [ex.submit(W.confirmed, fn, ctx, *args) for fn, args in jobs]:
             results.append(f.result())
     for r in results:
         for sig, msg in r["bad"]:
             ctx.violation(msg, {"kind": "oracle", "oracle": "CLI build returns, resolves every target, does not crash", "scenario": r}, signature=sig)
+    ctx.coverage["cli_unconfirmed_oracle_failures"] = [(r["scenario"], r["unconfirmed"], r.get("unconfirmed_record")) for r in results if r.get("unconfirmed")]
     ctx.coverage["cli_scenarios"] = {s: sum(1 for r in results if r["scenario"] == s) for s in ("target-timeout", "lost-blob", "alias-fanout")}
     ctx.coverage["cli_max_wall_s"] = max([r.get("wall", 0) for r in results] + [r.get("wall2", 0) for r in results])
     ctx.coverage["evaluations"] += len(results)
